@@ -72,7 +72,7 @@ func VerifC06Wait() {
 			ch = m.WhenNextActive(st, ctx)
 		case 5:
 			want := m.Tick(st) + extra
-			ch = m.WhenQuery(func(c Clock) bool { return c[st] >= want }, nil)
+			ch = m.WhenQuery(func(c Clock) bool { return c[st] >= want }, ctx)
 		case 6:
 			sctx = m.NewStateCtx(st)
 		case 7:
@@ -196,8 +196,8 @@ func VerifC06Wait() {
 	vLog("closed", verifB(closed))
 	vKnown("c06-when-closes-on-swap", kind == 0 && swap)
 	vAssert("no-lost-wakeup", !held || closed)
-	vAssert("no-spurious-wakeup", !closed || held || (ctxEnded && kind != 5 && kind != 7))
-	if ctxEnded && acceptedSinceCtxEnd && kind != 5 && kind != 7 {
+	vAssert("no-spurious-wakeup", !closed || held || (ctxEnded && kind != 7))
+	if ctxEnded && acceptedSinceCtxEnd && kind != 7 {
 		vAssert("closed-after-ctx-end", closed)
 	}
 }
